@@ -12,7 +12,7 @@ Definition scan_result (m : mesh) (svcs : list service) (cfg : string) (l : list
   let hb := fst (parse_hosts cfg (l_hosts l)) in
   select_services m (services_exported_to_ns m (sort_services svcs) cfg) cfg hb l.
 
-Definition pm := mkMesh None None None false "rootns" true true false.
+Definition pm := mkMesh None None None false "rootns" true true.
 
 (* (a) the namespace tie-break follows candidate order: creation order on the fast path,
    exported-before-public on the scan path *)
